@@ -3,7 +3,7 @@
 FS = ('FS layer: RollingWriter::{write,persist,forward,num_bytes_remaining_in_block,current_file} are VERIFIED against the BlockWrite contract over ghost state and the ASSUMED contracts of the '
       'BufWriter<File> stand-in vshim::BufFile (R17: with_capacity/write_all/flush/sync_data/seek; content/flushed/synced ghost lengths) plus one named assumption A-stream-bound (fewer than 2^62 bytes through one writer); '
       'RollingReader::{open,next_block,block,into_writer} (into_writer through R27 and the assumed contract of <File as Seek>::seek: the writer continues in the file the reader stood in, with the same tracker, at the start of the block the reader stood on), read_block (only the error kind UnexpectedEof becomes "no more block"), FileTracker::{take_first_unused,first,count,next,inc,new} (next/inc over the R26 shim for BTreeSet::range(..).next()), Directory::{gc,has_files_that_can_be_deleted,first_file_number}, {Frame,Record}Writer::directory are VERIFIED against the ghost FS model of spec/vfs.rs (RollingReader::open over the read_exact stand-in R20, its body verified under the name open__verif_impl, DESIGN.md 13.10); '
-      'still trusted (contracts assumed): Directory::{open,open_file,sync_directory}, create_file, the read_exact stand-ins (R20), FileTracker::from_file_numbers, RollingWriter::size, FileNumber::can_be_deleted; named assumptions A-file-number-bound (file numbers below 2^63), A-file-size (a WAL file holds at most 4096 full blocks) and A-stream-bound, each an explicit `assume` counted by the mechanical scan')
+      'Directory::open is VERIFIED over a ghost model of the directory listing (R29 stand-in for ReadDir; assumed std contracts of DirEntry::{file_type,file_name}, FileType::is_file, OsStr::to_str, Path::to_path_buf): it tracks exactly the regular files with a UTF-8 name of the WAL form, reports every listing error, and creates file 0 only if there is none; still trusted (contracts assumed): Directory::{open_file,sync_directory}, create_file, the read_exact stand-ins (R20), FileTracker::from_file_numbers, RollingWriter::size, FileNumber::can_be_deleted; named assumptions A-file-number-bound (file numbers below 2^63), A-file-size (a WAL file holds at most 4096 full blocks) and A-stream-bound, each an explicit `assume` counted by the mechanical scan')
 
 LEMMAS = {
     'C01': ['vspec::lemma_parse_ser_item', 'vspec::lemma_parse_ser_items', 'vspec::lemma_parse_ser_entry', 'vspec::lemma_replay_items_is_append_all', 'vspec::lemma_ser_items_empty', 'vspec::lemma_replay_history',
@@ -111,16 +111,16 @@ PROPS = {
                 'the reader stack, decoders, replay loop and accessors is a discharged obligation; loops carry decreases clauses. '
                 'Directory listing: filename_to_position (str byte reasoning, outside Verus) is decided by CBMC over ALL 24-byte names not to panic (K-fname, K-fname-nb: including names whose byte 4 is not a char boundary) and over all other lengths (K-fname-len).',
         kani_quick=['K-fname-nb', 'K-fname', 'K-fname-len'], kani_thorough=[],
-        trusted=[FS], not_decided=['Directory::open / RollingReader::{open,next_block} on odd directory contents', 'allocation without bound'],
+        trusted=[FS], not_decided=['allocation without bound', 'panic freedom of the std FS calls themselves'],
     ),
     'C11': dict(
         level='proof',
         explain='The replay loop has a decreases clause (reader position, lexicographic); read_record guarantees progress unless it returns Ok(None) or Err(IoError); '
                 'at `continue` the error is therefore not an I/O error (O-C11-term). I/O errors leave the reader position unchanged (O-C11-fr-io, O-C11-rr-io). '
                 'RollingReader::next_block is verified against the BlockRead contract over the ghost FS model: Ok(true) only for the next block of the concatenation of all tracked files, '
-                'Ok(false) only when no tracked file holds another full block, so an I/O error of open_file/read_block can neither be turned into end-of-log nor skip a file (O-BR-next-*).',
+                'Ok(false) only when no tracked file holds another full block, so an I/O error of open_file/read_block can neither be turned into end-of-log nor skip a file (O-BR-next-*). Directory::open is verified to return Ok only if every entry of the listing was obtained without error (O-C11-open-listing-errors) and propagates file_type() errors with `?`.',
         kani_quick=[], kani_thorough=[],
-        trusted=[FS], not_decided=['Directory::open / RollingReader::open error paths (FS primitives, trusted)'],
+        trusted=[FS], not_decided=['errors inside the FS primitives open_file / create_file (assumed to be returned as Err)'],
     ),
     'C12': dict(
         level='proof',
@@ -166,10 +166,10 @@ PROPS = {
                 'Some(n) iff "wal-" + 20 ASCII digits fitting u64, n = that value (K-fname: byte 4 a char boundary; K-fname-nb: byte 4 a continuation byte -> None without panic); other lengths -> None (K-fname-len); filename() round trip (K-fname-rt, bounded in the digits). '
                 'FS effects: Directory::gc (verified) removes only files popped from the tracker (O-C06-gc-prefix) and names them with filepath(dir, tracked number) (O-C17-remove-path); '
                 'structural obligations over the whole crate: remove_file/rename/... occur only in Directory::gc (O-C17-remove-site), files are opened/created only in create_file, Directory::open_file and sync_directory '
-                '(O-C17-open-sites), each through filepath(dir, tracked number) (O-C17-create-path, O-C17-open-path).',
+                '(O-C17-open-sites), each through filepath(dir, tracked number) (O-C17-create-path, O-C17-open-path). Directory::open is VERIFIED (O-C17-open-listing): over the ghost listing of the directory, the tracker holds exactly the numbers of the entries that are regular files (the entry itself, not a symlink target) whose name is valid UTF-8 and parses as a WAL name -- nothing else in the directory is ever tracked, hence read, written or removed; file 0 is created only when no such entry exists.',
         kani_quick=['K-fname', 'K-fname-nb', 'K-fname-len'], kani_thorough=['K-fname-rt'],
-        trusted=['Kani/CBMC', 'UTF-8 validity of the input str (byte 4 is a char boundary)', 'filepath = dir.join(filename()) (Path::join)', 'Directory::open (read_dir loop: trusted)'],
-        not_decided=['that Directory::open skips non-regular files and unparsable names (read_dir / DirEntry / OsString are outside Verus; the function is trusted and watched by the changed-trusted-function detector)'],
+        trusted=['Kani/CBMC', 'filepath = dir.join(filename()) (Path::join)', 'the link between the Verus contract of filename_to_position (A-f2p: result == parse_wal_name(chars)) and what Kani decides over bytes (ASCII: one byte per char); names longer than 32 bytes are outside K-fname-len', 'std contracts of read_dir / DirEntry / FileType / OsStr (assumed, spec/std_specs.rs)'],
+        not_decided=['that the OS listing is what is on disk; concurrent modification of the directory'],
     ),
     'C18': dict(
         level='proof',
